@@ -398,6 +398,16 @@ func (t *TOTP) PostValidate(w http.ResponseWriter, r *http.Request) error {
 		}
 	}
 
+	// The first step of the login may have happened a while ago, give the
+	// modules that can veto a login (lock, confirm) another chance to do so.
+	r = r.WithContext(context.WithValue(r.Context(), authboss.CTXKeyUser, user))
+	handled, err := t.Authboss.Events.FireBefore(authboss.EventAuth, w, r)
+	if err != nil {
+		return err
+	} else if handled {
+		return nil
+	}
+
 	authboss.PutSession(w, authboss.SessionKey, user.GetPID())
 	authboss.PutSession(w, authboss.Session2FA, "totp")
 
@@ -407,8 +417,7 @@ func (t *TOTP) PostValidate(w http.ResponseWriter, r *http.Request) error {
 
 	logger.Infof("user %s totp 2fa success", user.GetPID())
 
-	r = r.WithContext(context.WithValue(r.Context(), authboss.CTXKeyUser, user))
-	handled, err := t.Authboss.Events.FireAfter(authboss.EventAuth, w, r)
+	handled, err = t.Authboss.Events.FireAfter(authboss.EventAuth, w, r)
 	if err != nil {
 		return err
 	} else if handled {
